@@ -83,13 +83,17 @@ def _match_entry(entries, site, facts=None):
     return None
 
 
-def _subst_arg(spec, args):
+def _subst_arg(spec, args, pnames=None):
     if isinstance(spec, int):
         return ("const", spec)
     if isinstance(spec, str) and spec.startswith("arg"):
         return args[int(spec[3:])]
+    if isinstance(spec, str) and spec.startswith("p:"):
+        if not pnames or spec[2:] not in pnames:
+            raise KeyError(spec)
+        return args[pnames.index(spec[2:])]
     if isinstance(spec, list):
-        return (spec[0],) + tuple(_subst_arg(x, args) for x in spec[1:])
+        return (spec[0],) + tuple(_subst_arg(x, args, pnames) for x in spec[1:])
     raise ValueError(spec)
 
 
@@ -164,14 +168,20 @@ def run(run, ctx, fns, label, restrict=None):
                 continue
             p = pre[cs]
             args = [body.op(a) for a in t["args"]]
+            cb = ctx.cg.bodies.get(callee)
+            pnames = [cb.names.get(i + 1) for i in range(cb.argc)] if cb is not None else None
             pf = pfs.setdefault(fnpath, M.PointFacts(body))
             for req in p["requires"]:
                 rel = req[0]
-                a = _subst_arg(req[1], args)
-                b = _subst_arg(req[2], args)
+                try:
+                    a = _subst_arg(req[1], args, pnames)
+                    b = _subst_arg(req[2], args, pnames)
+                except KeyError as ex:
+                    run.violation("PANIC", label, "precondition-anchor|%s|%s" % (cs, ex), "src", "anchor-missing: %s no longer has the parameter %s its audited precondition is stated over" % (cs, ex))
+                    continue
                 # a caller that forwards its own parameter unchanged inherits the documented precondition
                 if p.get("forwarded_ok"):
-                    fa = _subst_arg(req[1], args)
+                    fa = _subst_arg(req[1], args, pnames)
                     if fa[0] == "var" and fa[2] <= body.argc and finfo.get("exported"):
                         continue
                     if fa == ("const", 0):
